@@ -4,6 +4,7 @@ canonicalisation.  See lean/Asynkit/Model/ProtoProg.lean for the program languag
 from __future__ import annotations
 
 import asyncio
+import contextvars
 import inspect
 import sys
 import types
@@ -31,13 +32,22 @@ class BE(BaseException):
     pass
 
 
+class RefAbort(BaseException):
+    """The oracle's own abort signal: a direct BaseException subclass, independent of how asynkit
+    happens to define SynchronousAbort.  `except SynchronousAbort` handlers of a program are bound to
+    it in the reference run."""
+
+
+CV = [contextvars.ContextVar("verif_cv0", default=0), contextvars.ContextVar("verif_cv1", default=0)]
+
 EXC = {
+    "InvalidState": asyncio.InvalidStateError, "RT.other": RuntimeError, "StopIteration": StopIteration,
     "E1": E1, "E2": E2, "BE": BE, "Cancelled": asyncio.CancelledError, "GenExit": GeneratorExit,
     "SyncAbort": ak_coro.SynchronousAbort, "StopAsync": StopAsyncIteration,
 }
 CATCH = {
     "E1": "E1", "E2": "E2", "Cancelled": "asyncio.CancelledError", "GenExit": "GeneratorExit",
-    "SyncAbort": "SynchronousAbort", "Exception": "Exception", "BaseException": "BaseException",
+    "SyncAbort": "ABORT", "Exception": "Exception", "BaseException": "BaseException",
 }
 
 
@@ -49,12 +59,12 @@ def cname(e: BaseException) -> str:
         return "E2"
     if t is BE:
         return "BE"
+    if isinstance(e, (ak_coro.SynchronousAbort, RefAbort)):
+        return "SyncAbort"
     if isinstance(e, asyncio.CancelledError):
         return "Cancelled"
     if isinstance(e, GeneratorExit):
         return "GenExit"
-    if isinstance(e, ak_coro.SynchronousAbort):
-        return "SyncAbort"
     if isinstance(e, ak_coro.SynchronousError):
         return "SyncError"
     if isinstance(e, asyncio.InvalidStateError):
@@ -135,6 +145,10 @@ def sexp(stmts) -> str:
             out.append(f"({k} {s[1]})")
         elif k in ("bare", "reraise"):
             out.append(f"({k})")
+        elif k == "cset":
+            out.append(f"(cset {s[1]} {s[2]})")
+        elif k in ("cget", "creset"):
+            out.append(f"({k} {s[1]})")
         elif k == "call":
             out.append("(call " + sexp(s[1]) + ")" if s[1] else "(call)")
         elif k == "try":
@@ -191,6 +205,12 @@ class _Src:
                 self.lines.append(f"{pad}return {s[1] if s[1] else None}")
             elif k == "raise":
                 self.lines.append(f"{pad}raise EXC['{s[1]}']()")
+            elif k == "cset":
+                self.lines.append(f"{pad}TOKS.append(({s[1]}, CV[{s[1]}].set({s[2]})))")
+            elif k == "cget":
+                self.lines.append(f"{pad}L.append('v{s[1]}=%d' % CV[{s[1]}].get())")
+            elif k == "creset":
+                self.lines.append(f"{pad}creset({s[1]})")
             else:
                 raise ValueError(k)
 
@@ -203,31 +223,58 @@ def source(stmts, name="main") -> str:
 
 
 class Env:
-    """One compiled program: its event log, its futures, its coroutine factory."""
+    """One compiled program: its event log, its futures, its ContextVar tokens, its coroutine factory."""
 
-    def __init__(self, stmts, loop):
+    def __init__(self, stmts, loop, abort_cls=None, auto_after=None):
         self.L = []
+        self.TOKS = []
         self.loop = loop
-        self.F = _Futs(loop)
+        self.F = _Futs(loop, auto_after)
+        toks = self.TOKS
+
+        def creset(i):
+            for j in range(len(toks) - 1, -1, -1):
+                if toks[j][0] == i:
+                    CV[i].reset(toks.pop(j)[1])
+                    return
         g = {"L": self.L, "F": self.F, "Tok": Tok, "sleep0": sleep0, "val": val, "cname": cname,
-             "EXC": EXC, "E1": E1, "E2": E2, "asyncio": asyncio,
-             "SynchronousAbort": ak_coro.SynchronousAbort}
+             "EXC": EXC, "E1": E1, "E2": E2, "asyncio": asyncio, "CV": CV, "TOKS": toks, "creset": creset,
+             "ABORT": abort_cls or ak_coro.SynchronousAbort}
         exec(compile(source(stmts), "<prog>", "exec"), g)
         self.main = g["main"]
 
     def log(self):
         return " ".join(self.L) if self.L else "-"
 
+    def cv_line(self):
+        """Caller-visible ContextVar values now, and after the caller resets every outstanding token."""
+        now = f"{CV[0].get()},{CV[1].get()}"
+        try:
+            for i, t in reversed(self.TOKS):
+                CV[i].reset(t)
+            after = f"{CV[0].get()},{CV[1].get()}"
+        except (ValueError, RuntimeError) as e:
+            after = type(e).__name__
+        return f"cv={now} ; reset={after}"
+
 
 class _Futs(dict):
-    def __init__(self, loop):
+    """Futures of a program, created on first use.  With `auto_after=n` every future after the
+    first n is resolved by the loop right away (real-loop streams)."""
+
+    def __init__(self, loop, auto_after=None):
         super().__init__()
         self.loop = loop
+        self.auto_after = auto_after
+        self.order = []
 
     def __missing__(self, k):
         f = self.loop.create_future()
         f._verif_k = k
         self[k] = f
+        self.order.append(f)
+        if self.auto_after is not None and len(self.order) > self.auto_after:
+            self.loop.call_soon(lambda: f.done() or f.set_result(100 + k))
         return f
 
 
@@ -242,7 +289,8 @@ def phase(c) -> str:
 THROWABLE = ["E1", "E2", "BE", "Cancelled", "GenExit"]
 
 
-def gen_prog(rng, depth=0, budget=None, allow_fut=False, catches=None, p_await=0.3, counter=None):
+def gen_prog(rng, depth=0, budget=None, allow_fut=False, catches=None, p_await=0.3, counter=None,
+             fut_only=False, ctxvars=False):
     """A random statement list.  `budget` bounds the total size."""
     if budget is None:
         budget = [rng.randint(3, 14)]
@@ -257,7 +305,7 @@ def gen_prog(rng, depth=0, budget=None, allow_fut=False, catches=None, p_await=0
         budget[0] -= 1
         r = rng.random()
         if r < p_await:
-            if allow_fut and rng.random() < 0.25:
+            if fut_only or (allow_fut and rng.random() < 0.25):
                 counter["fut"] += 1
                 out.append(("fut", counter["fut"]))
             elif rng.random() < 0.1:
@@ -269,19 +317,19 @@ def gen_prog(rng, depth=0, budget=None, allow_fut=False, catches=None, p_await=0
             counter["log"] += 1
             out.append(("log", counter["log"]))
         elif r < p_await + 0.27 and depth < 3:
-            out.append(("call", gen_prog(rng, depth + 1, budget, allow_fut, catches, p_await, counter)))
+            out.append(("call", gen_prog(rng, depth + 1, budget, allow_fut, catches, p_await, counter, fut_only, ctxvars)))
         elif r < p_await + 0.55 and depth < 3:
-            body = gen_prog(rng, depth + 1, budget, allow_fut, catches, p_await, counter)
+            body = gen_prog(rng, depth + 1, budget, allow_fut, catches, p_await, counter, fut_only, ctxvars)
             hs = []
             for c in rng.sample(catches, rng.choice([0, 1, 1, 2, 3])):
-                hb = gen_prog(rng, depth + 1, budget, allow_fut, catches, p_await, counter) \
+                hb = gen_prog(rng, depth + 1, budget, allow_fut, catches, p_await, counter, fut_only, ctxvars) \
                     if rng.random() < 0.8 else []
                 if rng.random() < 0.2:
                     hb = hb + [("reraise",)]
                 hs.append((c, hb))
             # `except BaseException`/`Exception` after narrower ones only (as Python orders them)
             hs.sort(key=lambda h: {"BaseException": 2, "Exception": 1}.get(h[0], 0))
-            fin = gen_prog(rng, depth + 1, budget, allow_fut, catches, p_await, counter) \
+            fin = gen_prog(rng, depth + 1, budget, allow_fut, catches, p_await, counter, fut_only, ctxvars) \
                 if (rng.random() < 0.5 or not hs) else []
             fin = [s for s in fin if s[0] not in ("ret",)] or ([("log", 99)] if not hs else [])
             out.append(("try", body, hs, fin))
@@ -289,8 +337,18 @@ def gen_prog(rng, depth=0, budget=None, allow_fut=False, catches=None, p_await=0
             out.append(("ret", rng.choice([0, 5, 7, 11])))
             break
         elif r < p_await + 0.70:
-            out.append(("raise", rng.choice(["E1", "E2", "BE", "Cancelled"])))
+            out.append(("raise", rng.choice(["E1", "E2", "BE", "Cancelled", "E1", "E2", "InvalidState", "RT.other",
+                                             "StopIteration", "GenExit"])))
             break
+        elif ctxvars and r < p_await + 0.85:
+            q = rng.random()
+            i = rng.choice([0, 1])
+            if q < 0.5:
+                out.append(("cset", i, rng.choice([1, 2, 3, 4])))
+            elif q < 0.8:
+                out.append(("cget", i))
+            else:
+                out.append(("creset", i))
         else:
             counter["log"] += 1
             out.append(("log", counter["log"]))
@@ -466,13 +524,21 @@ def drive(obj, drives, info):
     return outs
 
 
-def run_real(layers, stmts, drives, loop):
-    """Run one case on the real code.  Returns (canonical line, info)."""
+def run_real(layers, stmts, drives, loop, resolve_held=False):
+    """Run one case on the real code.  Returns (canonical line, info).  With `resolve_held` every
+    Future a CoroStart is holding after the build is completed *before* the first drive (the
+    schedule "resolved while the wrapper held it")."""
     env = Env(stmts, loop)
     keep, info = [], {}
     c = env.main()
     keep.append(c)
     obj = build(layers, c, keep, info)
+    if resolve_held:
+        for x in keep:
+            sr = getattr(x, "start_result", None) if isinstance(x, CoroStart) else None
+            if sr and sr[1] is None and isinstance(sr[0], asyncio.Future) and not sr[0].done():
+                sr[0].set_result(100 + getattr(sr[0], "_verif_k", -1))
+                info["resolved_while_held"] = True
     outs = drive(obj, drives, info)
     line = f"outs={' '.join(outs)} ; phase={phase(c)} ; log={env.log()}"
     info["keep"] = (keep, obj, env)     # alive until the caller has the line
